@@ -31,6 +31,10 @@ type hisStream struct {
 type hisVal struct {
 	Obj pdf.Object
 	Stm *hisStream
+	// Raw, if not nil, is the exact text written for an object-stream member (Obj is what it denotes);
+	// Tight suppresses the white space in front of the member
+	Raw   []byte
+	Tight bool
 }
 
 func (v hisVal) token() string {
@@ -517,12 +521,18 @@ func (b *hisBuilder) objStmValue(members []hisEntry) (hisVal, []byte) {
 	var body bytes.Buffer
 	offs := make([]int, len(members))
 	for i, m := range members {
-		body.Write(b.rd.ws(false))
-		if i > 0 && body.Len() > 0 && hisIsRegular(body.Bytes()[body.Len()-1]) {
-			body.WriteByte(' ')
+		if !m.Val.Tight {
+			body.Write(b.rd.ws(false))
+			if i > 0 && body.Len() > 0 && hisIsRegular(body.Bytes()[body.Len()-1]) {
+				body.WriteByte(' ')
+			}
 		}
 		offs[i] = body.Len()
-		body.Write(b.rd.obj(m.Val.Obj))
+		if m.Val.Raw != nil {
+			body.Write(m.Val.Raw)
+		} else {
+			body.Write(b.rd.obj(m.Val.Obj))
+		}
 	}
 	var head bytes.Buffer
 	for i, m := range members {
